@@ -128,3 +128,10 @@ impl<'a, K, N, E> Method<'a, K, N, E> {
         ensures forall|e: Edge<K, N, E>| r.accepts(e), r.log() == Seq::<Edge<K, N, E>>::empty()
     { unimplemented!() }
 }
+
+// R12: `edges.iter().map(|Edge(_, v, _)| v.clone()).collect()` (iterator adapter chain, not
+// accepted by Verus) is replaced by this specified stand-in
+#[verifier::external_body]
+pub fn targets_of<K, N, E>(edges: &Vec<Edge<K, N, E>>) -> (r: Vec<Node<K, N, E>>)
+    ensures r@ == edges@.map_values(|e: Edge<K, N, E>| e.1)
+{ unimplemented!() }
